@@ -67,6 +67,9 @@ func TestMain(m *testing.M) {
 	srvCert = ca.LoopbackServer()
 	cliCert = ca.Issue(glue.LeafSpec{CN: "exporter", Client: true})
 	if rp := ev.LoadReplay(); rp != nil {
+		if rp.Phase == "slow_consumer" {
+			ev.RunReplay(rp, runSlowConsumer)
+		}
 		ev.RunReplay(rp, func(c Case) *ev.Failure { f, _ := runCase(c); return f })
 	}
 	rec = ev.New("C01", "sessions of a fresh library exporter and a fresh library collector over real loopback sockets (tcp, udp, tls, dtls; IPv4 and IPv6 listeners): one template of 1..40 elements drawn (repeats allowed) from the whole loaded IANA / reverse / Antrea registry (supported data types), 1..3 data sets of 1..n well-typed records (boundary-biased integers and float bit patterns, string/octet lengths 0/1/254/255/256/random, one class fills the message to exactly the transport's maximum), then a sentinel template whose delivery proves everything before it was processed; non-trivial = >= 2 fields and >= 1 record and all fields compared; distinct by hash of the case",
@@ -540,7 +543,128 @@ func classify(c Case) (bool, []string, int) {
 	return len(c.Fields) >= 2 && nrec >= 1, cl, maxMsg
 }
 
+// SlowConsumer: the application behind the collector stops taking messages for PauseMs while the
+// exporter keeps sending N messages of about Size bytes over tcp or tls, with its connection check
+// running every IntervalMs: the exporter's writes block for a while. Nothing is lost or reordered
+// and no send fails: back-pressure is not an error.
+type SlowConsumer struct {
+	Transport  string `json:"transport"` // tcp | tls
+	PauseMs    int    `json:"pause_ms"`
+	N          int    `json:"n"`
+	Size       int    `json:"size"`
+	IntervalMs int    `json:"interval_ms"`
+}
+
+func runSlowConsumer(c SlowConsumer) *ev.Failure {
+	in := collector.CollectorInput{Address: "127.0.0.1:0", Protocol: "tcp", MaxBufferSize: 65535}
+	var tlsCfg *exporter.ExporterTLSClientConfig
+	if c.Transport == "tls" {
+		in.IsEncrypted, in.ServerCert, in.ServerKey = true, srvCert.CertPEM, srvCert.KeyPEM
+		tlsCfg = &exporter.ExporterTLSClientConfig{ServerName: "localhost", CAData: ca.CertPEM}
+	}
+	cp, err := collector.InitCollectingProcess(in)
+	if err != nil {
+		return ev.Failf("InitCollectingProcess: %v", err)
+	}
+	go cp.Start()
+	for i := 0; i < 3000 && cp.GetAddress() == nil; i++ {
+		time.Sleep(time.Millisecond)
+	}
+	if cp.GetAddress() == nil {
+		return nil
+	}
+	var mu sync.Mutex
+	var seqs []uint32
+	resume := make(chan struct{})
+	stopDrain, drained := make(chan struct{}), make(chan struct{})
+	go func() {
+		defer close(drained)
+		first := true
+		for {
+			select {
+			case m := <-cp.GetMsgChan():
+				if first { // the template went through; now the application is busy for a while
+					first = false
+					select {
+					case <-resume:
+					case <-stopDrain:
+						return
+					}
+				}
+				mu.Lock()
+				seqs = append(seqs, m.GetSequenceNum())
+				mu.Unlock()
+			case <-stopDrain:
+				return
+			}
+		}
+	}()
+	defer func() { cp.Stop(); close(stopDrain); <-drained }()
+	ep, err := exporter.InitExportingProcess(exporter.ExporterInput{CollectorAddress: cp.GetAddress().String(), CollectorProtocol: "tcp", ObservationDomainID: 3,
+		TLSClientConfig: tlsCfg, CheckConnInterval: time.Duration(c.IntervalMs) * time.Millisecond})
+	if err != nil {
+		return nil
+	}
+	defer ep.CloseConnToCollector()
+	var str ref.Field
+	for _, x := range pool {
+		if x.Name == "sourcePodName" {
+			str = x
+		}
+	}
+	fields := []ref.Field{str}
+	ts, _ := exph.TemplateSet(256, fields, 0)
+	if _, err := ep.SendSet(ts); err != nil {
+		return ev.Failf("template: %v", err)
+	}
+	go func() { time.Sleep(time.Duration(c.PauseMs) * time.Millisecond); close(resume) }()
+	for k := 0; k < c.N; k++ {
+		ds, err := exph.DataSet(256, fields, [][]ref.Value{{{B: bytes.Repeat([]byte{byte('a' + k%26)}, c.Size)}}}, k%3)
+		if err != nil {
+			return ev.Failf("data set: %v", err)
+		}
+		if _, err := ep.SendSet(ds); err != nil {
+			return ev.Failf("over %s, send %d of %d (%d bytes each) failed while the collector's application was not taking messages for %d ms (connection check every %d ms): %v - back-pressure is not an error", c.Transport, k, c.N, c.Size, c.PauseMs, c.IntervalMs, err)
+		}
+	}
+	for end := time.Now().Add(60 * time.Second); ; time.Sleep(2 * time.Millisecond) {
+		mu.Lock()
+		n := len(seqs)
+		mu.Unlock()
+		if n >= 1+c.N {
+			break
+		}
+		if time.Now().After(end) {
+			return ev.Failf("over %s, %d of %d messages were delivered after the collector's application had paused for %d ms (every SendSet succeeded)", c.Transport, n, 1+c.N, c.PauseMs)
+		}
+	}
+	mu.Lock()
+	defer mu.Unlock()
+	for k, s := range seqs[1:] {
+		if s != uint32(k+1) {
+			return ev.Failf("over %s, message %d was delivered with sequence number %d after a pause of the collector's application: lost or reordered", c.Transport, k+1, s)
+		}
+	}
+	return nil
+}
+
 func TestC01(t *testing.T) {
+	// every run: the application behind the collector pauses while the exporter keeps sending
+	slow := []SlowConsumer{{Transport: "tcp", PauseMs: 500, N: 250, Size: 60000, IntervalMs: 10}, {Transport: "tls", PauseMs: 400, N: 200, Size: 60000, IntervalMs: 5}}
+	slowFails := make([]*ev.Failure, len(slow))
+	var sw sync.WaitGroup
+	for k := range slow {
+		sw.Add(1)
+		go func(k int) { defer sw.Done(); slowFails[k] = runSlowConsumer(slow[k]) }(k)
+	}
+	sw.Wait()
+	for k, c := range slow {
+		rec.Case(ev.Hash(c), true, "slow_consumer", "transport_"+c.Transport)
+		if slowFails[k] != nil {
+			rec.Violation("slow_consumer", c, slowFails[k].Msg)
+			t.Fatalf("%s", slowFails[k].Msg)
+		}
+	}
 	// known finding D10: DTLS messages above pion's receive buffer are reported sent and never delivered
 	if rec.Open("D10") {
 		f := []ref.Field{pool[0]}
